@@ -50,6 +50,21 @@ CLAIMED["C03"] = dict(
        "Crashes during recovery itself are not enumerated yet. Workloads are the ones the driver generates (6 quick / 24 thorough, ~5-10k images quick).",
   technique="physical-operation hooks + exhaustive crash-point enumeration on real recovery, verdicts by TLC trace validation against Store.tla")
 
+CLAIMED["C01"] = dict(
+  category="model_checking",
+  text="spec/Proofs.tla models headers, Alh/innerHash, the binary-linking tree and dual/linear/linear-advance proof generation and verification symbolically (hashes = free "
+       "terms, i.e. collision resistance). TLC evaluates spec/ProofCases.tla exhaustively for all history shapes (any non-decreasing BlTxID lag) up to N txs (4 quick / 5 thorough), "
+       "all (trusted, queried) pairs in both directions, the honest response, the response from a history forked at any point, every one-component mixture of both and every single "
+       "alteration of every header field and proof term at every position; it proves completeness in the model and computes, per case, the transcribed verifier's verdict and the "
+       "semantic truth (new state linked to the trusted one). Every case is then executed on the real code: real stores with those shapes (built via ReplicateTx), real "
+       "store.DualProof output, the same mixtures/alterations applied to the real structs, real store.VerifyDualProof in the client flow; accept without truth or reject of an "
+       "honest proof is a violation, any difference to the transcription is reported as model drift. Proof-shape soundness of the underlying tree verifiers (incl. the equivocation "
+       "attack via re-labelled inclusion proofs, repaired by a fix: commit) is decided by C08's cases.",
+  design_ref="DESIGN.md §4 C01",
+  note="Bounded: N<=5 txs, one entry per tx, single alterations and one-component mixtures, forks of well-formed histories. Not yet covered: multi-step client sessions, "
+       "pkg/client + pkg/database Verifiable* conversions and signatures, malformed-history adversary with proof solving for dual proofs, DualProofV2.",
+  technique="symbolic TLA+ model of the proof system, exhaustive TLC case enumeration, replay of every case on real proof generation and verification")
+
 REASONS = {}
 
 
